@@ -116,7 +116,13 @@ class FormulaParser(Parser):
         elif p[2] == '.':
             p[0] = to_number(p[1] + '.' + p[3])
         elif p[2] == '^':
-            p[0] = to_number(p[1])**to_number(p[3])
+            base, exponent = to_number(p[1]), to_number(p[3])
+            if base > 1 and (base.bit_length() - 1) * exponent >= 1024:
+                # at least 2**1024, beyond the largest spreadsheet number: the exact
+                # integer power would take unbounded time and memory (9^99999999)
+                p[0] = self.throw_error(error.NUM)
+            else:
+                p[0] = base**exponent
         elif p[2] == '%':
             p[0] = to_number(p[1]) * 0.01
 
